@@ -63,6 +63,36 @@ func metaDoc(c model.MetaCfg, format string, t *fixture.Tree) fixture.Doc {
 			}
 			l = append(l, model.RenderRel(format, it))
 		}
+		if c.RelInOverride {
+			ov, _ := d["overrides"].(map[string]any)
+			if ov == nil {
+				ov = map[string]any{format: map[string]any{}}
+				d["overrides"] = ov
+			}
+			fo := ov[format].(map[string]any)
+			sub := func(name string) map[string]any {
+				m, _ := fo[name].(map[string]any)
+				if m == nil {
+					m = map[string]any{}
+					fo[name] = m
+				}
+				return m
+			}
+			decoy := []any{"decoy-" + kind}
+			switch kind {
+			case "predepends":
+				sub("deb")["predepends"] = l
+				sub("ipk")["predepends"] = l
+				blocks["deb"]["predepends"], blocks["ipk"]["predepends"] = decoy, decoy
+			case "breaks":
+				sub("deb")["breaks"] = l
+				blocks["deb"]["breaks"] = decoy
+			default:
+				fo[kind] = l
+				d[kind] = decoy
+			}
+			continue
+		}
 		switch kind {
 		case "predepends":
 			blocks["deb"]["predepends"] = l
@@ -396,6 +426,20 @@ func enumC02(env *engine.Env, yield func(any) bool) {
 		if !emit("rel8", c) {
 			return
 		}
+		// the same lists configured in the override block of the format (decoys in the base settings)
+		c.RelInOverride = true
+		if !emit("rel8-override", c) {
+			return
+		}
+		c.RelInOverride = false
+		for _, k := range model.RelKinds {
+			c1 := baseMeta()
+			c1.RelInOverride = true
+			c1.Rel = map[string][]model.RelItem{k: relItems(k, variant)}
+			if !emit("rel1-override", c1) {
+				return
+			}
+		}
 		if variant == "versioned" || variant == "plain" {
 			// the same lists written with items that expand to nothing in between: what remains, in order
 			c.RelBlanks = true
@@ -428,6 +472,10 @@ func enumC02(env *engine.Env, yield func(any) bool) {
 			c.DebFields = map[string]string{"Bugs": "https://bugs.example", "X-Custom": "custom value", "Empty": ""}
 		},
 		func(c *model.MetaCfg) {
+			// keys a control file may carry which the template itself never writes
+			c.DebFields = map[string]string{"Essential": "yes", "Vendor": "ACME", "Tags": "role::program", "Source": "src-pkg", "Built-Using": "gcc (= 12)", "Multi-Arch": "foreign", "Origin": "acme", "Enhances": "other"}
+		},
+		func(c *model.MetaCfg) {
 			c.DebTriggers = map[string][]string{"interest": {"trig-a", "trig-b"}, "interest_await": {"trig-c"}, "interest_noawait": {"trig-d"}, "activate": {"trig-e"}, "activate_await": {"trig-f"}, "activate_noawait": {"trig-g"}}
 		},
 		func(c *model.MetaCfg) { c.Changelog = true },
@@ -443,8 +491,8 @@ func enumC02(env *engine.Env, yield func(any) bool) {
 	}
 	if env.Thorough() {
 		// every pair of extras together
-		for i, a := range extras[:9] {
-			for _, b := range extras[i+1 : 9] {
+		for i, a := range extras[:10] {
+			for _, b := range extras[i+1 : 10] {
 				c := baseMeta()
 				a(&c)
 				b(&c)
@@ -505,7 +553,7 @@ func enumC02(env *engine.Env, yield func(any) bool) {
 		}
 	}
 	call := baseMeta()
-	for _, ex := range extras[:9] {
+	for _, ex := range extras[:10] {
 		ex(&call)
 	}
 	if !emit("extras-all", call) {
